@@ -64,6 +64,7 @@ TVehBox == /\ IsEvent("VehBox") /\ Same
 TTrackRow == /\ IsEvent("TrackRow")
              /\ CodeShapeOk(E.code)
              /\ E.bytes = TrackWire(E.code) /\ E.re = E.bytes /\ E.name = E.code /\ E.disp = E.code
+             /\ E.chunk_ok                \* the six bytes are the value, however the reader hands them over
              /\ E.rev = TrackReversed(E.code) /\ E.open = TrackOpen(E.code)
              /\ (E.open => ~E.dist) /\ (E.dist <=> E.mile > 0) /\ E.km_ok
              /\ AreaKey(E.code) \in DOMAIN AreaLicence /\ E.lic = AreaLicence[AreaKey(E.code)]
